@@ -217,15 +217,37 @@ func reflPayOf(st *State) *reflPay { return st.P.(*reflPay) }
 
 // isSetterSig: func(string, any) error — the shape of the field setter.
 func isSetterSig(t types.Type) bool {
-	sig, ok := t.Underlying().(*types.Signature)
-	if !ok || sig.Params().Len() != 2 || sig.Results().Len() != 1 {
-		return false
+	ki, xi, ok := setterParams(t)
+	return ok && ki == 0 && xi == 1 && t.Underlying().(*types.Signature).Params().Len() == 2
+}
+
+// setterParams: the positions of the key (the only string parameter) and of the value (the only interface
+// parameter, after the key) of a function returning an error; what else it is handed (the destination, the tag
+// table) does not matter.
+func setterParams(t types.Type) (ki, xi int, ok bool) {
+	sig, isSig := t.Underlying().(*types.Signature)
+	if !isSig || sig.Results().Len() != 1 || !isErrorType(sig.Results().At(0).Type()) || sig.Variadic() {
+		return 0, 0, false
 	}
-	if types.TypeString(sig.Params().At(0).Type(), nil) != "string" || !isErrorType(sig.Results().At(0).Type()) {
-		return false
+	ki, xi = -1, -1
+	for i := 0; i < sig.Params().Len(); i++ {
+		pt := sig.Params().At(i).Type()
+		if types.TypeString(pt, nil) == "string" {
+			if ki >= 0 {
+				return 0, 0, false
+			}
+			ki = i
+		} else if _, isIface := pt.Underlying().(*types.Interface); isIface {
+			if _, named := pt.(*types.Named); named {
+				continue // Block-like interfaces, error: not the value
+			}
+			if xi >= 0 {
+				return 0, 0, false
+			}
+			xi = i
+		}
 	}
-	_, isIface := sig.Params().At(1).Type().Underlying().(*types.Interface)
-	return isIface
+	return ki, xi, ki >= 0 && xi > ki
 }
 
 type reflPath struct {
@@ -552,6 +574,22 @@ func (c *Ctx) reflHooks(root *ast.FuncDecl, copyBlockObj types.Object) Hooks {
 		}
 		if isTag(v, "typeok") {
 			tt := v.Data.(typeTest)
+			if isTag(tt.X, "binding") {
+				// b, ok := binding.(T): what earlier assertions on the same value settled
+				kind := typeShort(tt.T)
+				switch {
+				case p.facts["nilbinding"], p.facts["bindingnot:"+kind]:
+					return triFalse
+				case p.facts["bindingis:"+kind]:
+					return triTrue
+				}
+				for f, known := range p.facts {
+					if known && strings.HasPrefix(f, "bindingis:") {
+						return triFalse
+					}
+				}
+				return triUnknown
+			}
 			if typeShort(tt.T) == "fieldMappingErr" && isTag(tt.X, "errv") {
 				if tt.X.Data.(string) == "maperr" {
 					return triTrue
@@ -624,6 +662,25 @@ func (c *Ctx) reflHooks(root *ast.FuncDecl, copyBlockObj types.Object) Hooks {
 		case isTag(v, "typeok"):
 			tt := v.Data.(typeTest)
 			p.facts["typeok:"+descOf(tt.X)+":"+typeShort(tt.T)] = branch
+			if isTag(tt.X, "binding") {
+				// the if-chain form of the switch over the binding's type
+				kind := typeShort(tt.T)
+				if branch {
+					p.facts["binding:"+kind] = true
+					p.facts["bindingis:"+kind] = true
+				} else {
+					p.facts["bindingnot:"+kind] = true
+					other := true
+					for _, k := range c.bindingImpls() {
+						if !p.facts["bindingnot:"+k] {
+							other = false
+						}
+					}
+					if other {
+						p.facts["binding:other"] = true
+					}
+				}
+			}
 			return
 		case isTag(v, "ok"):
 			p.facts["hit:"+v.Data.(string)] = branch
@@ -716,21 +773,21 @@ func (c *Ctx) reflHooks(root *ast.FuncDecl, copyBlockObj types.Object) Hooks {
 		return tagV("res", p.next)
 	}
 	// runSetter interprets one invocation of the field setter in place and records it
-	runSetter := func(in *Interp, st *State, call *ast.CallExpr, args []Value, run func(*State, []Value) []valState) []valState {
+	runSetter := func(in *Interp, st *State, call *ast.CallExpr, args []Value, ki, xi int, run func(*State, []Value) []valState) []valState {
 		p := reflPayOf(st)
 		s := reflSetter{Pos: call.Pos(), Key: "?", X: "?"}
-		if len(args) == 2 {
-			s.Key, s.X = strOf(args[0]), descOf(args[1])
-			if args[0].K == vConst && args[0].C.Kind() == constant.String {
-				s.KeyConst = constant.StringVal(args[0].C)
+		if ki < len(args) && xi < len(args) && xi < len(call.Args) {
+			s.Key, s.X = strOf(args[ki]), descOf(args[xi])
+			if args[ki].K == vConst && args[ki].C.Kind() == constant.String {
+				s.KeyConst = constant.StringVal(args[ki].C)
 			}
 			// inside, the parameters are symbolic: the key as given, the value as "x"
 			args = append([]Value(nil), args...)
-			if args[0].K == vConst {
-				args[0] = tagV("key", s.Key)
+			if args[ki].K == vConst {
+				args[ki] = tagV("key", s.Key)
 			}
-			args[1] = tagV("x", s.X)
-			if t := c.typeOf(call.Args[1]); t != nil {
+			args[xi] = tagV("x", s.X)
+			if t := c.typeOf(call.Args[xi]); t != nil {
 				p.xTypes[s.X] = t
 			}
 		}
@@ -808,12 +865,22 @@ func (c *Ctx) reflHooks(root *ast.FuncDecl, copyBlockObj types.Object) Hooks {
 			if id, ok := stripParens(call.Fun).(*ast.Ident); ok {
 				if fv, ok := st.Env[c.objOf(id)]; ok && fv.K == vFunc && fv.Lit != nil {
 					lit := fv.Lit
-					return runSetter(in, st, call, args, func(s *State, a []Value) []valState { return in.inlineLit(s, lit, a) }), true
+					return runSetter(in, st, call, args, 0, 1, func(s *State, a []Value) []valState { return in.inlineLit(s, lit, a) }), true
 				}
 			}
 			if fn, ok := callee.(*types.Func); ok && fn.Pkg() != nil && fn.Pkg().Path() == bclPath && types.Object(fn) != copyBlockObj {
 				if fd := c.funcDecls[fn]; fd != nil && fd.Body != nil {
-					return runSetter(in, st, call, args, func(s *State, a []Value) []valState { return in.inlineDecl(s, fd, call, a) }), true
+					return runSetter(in, st, call, args, 0, 1, func(s *State, a []Value) []valState { return in.inlineDecl(s, fd, call, a) }), true
+				}
+			}
+		} else if ft != nil && len(p.curSetter) == 0 {
+			// the setter as a plain function handed the destination and the tag table explicitly; its own helpers
+			// (called while a setter runs) are just code
+			if ki, xi, isS := setterParams(ft); isS && len(args) == ft.Underlying().(*types.Signature).Params().Len() {
+				if fn, ok := callee.(*types.Func); ok && fn.Pkg() != nil && fn.Pkg().Path() == bclPath && types.Object(fn) != copyBlockObj {
+					if fd := c.funcDecls[fn]; fd != nil && fd.Body != nil && fd.Recv == nil {
+						return runSetter(in, st, call, args, ki, xi, func(s *State, a []Value) []valState { return in.inlineDecl(s, fd, call, a) }), true
+					}
 				}
 			}
 		}
@@ -1428,4 +1495,32 @@ func (c *Ctx) reflModelOf(which string) *reflModel {
 		m.Paths = append(m.Paths, rp)
 	}
 	return m
+}
+
+// bindingImpls: the named types of the package that implement Binding.
+func (c *Ctx) bindingImpls() []string {
+	var out []string
+	bt := namedType(c.Bcl, "Binding")
+	if bt == nil {
+		return nil
+	}
+	iface, ok := bt.Underlying().(*types.Interface)
+	if !ok {
+		return nil
+	}
+	sc := c.Bcl.Types.Scope()
+	for _, n := range sc.Names() {
+		tn, ok := sc.Lookup(n).(*types.TypeName)
+		if !ok || tn.IsAlias() {
+			continue
+		}
+		if _, isI := tn.Type().Underlying().(*types.Interface); isI {
+			continue
+		}
+		if types.Implements(tn.Type(), iface) || types.Implements(types.NewPointer(tn.Type()), iface) {
+			out = append(out, typeShort(tn.Type()))
+		}
+	}
+	sort.Strings(out)
+	return out
 }
